@@ -37,7 +37,7 @@ def _ops(draw, kind, d, cfg, allow_long=True):
             if r_ == 0:
                 ops.append(["restart"])
             elif r_ == 1:
-                ops.append(["inspect", False])
+                ops.append(["inspect", draw(st.integers(0, 2)) == 0])  # (every third one with the plotting calls)
             elif r_ == 2 and draw(st.booleans()):
                 ops.append(["interrupt", draw(st.sampled_from([1, 2, 5])), draw(st.integers(1, 30))])
             else:
